@@ -944,9 +944,75 @@ func (g *G) command() string {
 }
 
 // sequence draws 1..30 messages for one connection.
+// downloadScenario drives the node into "full block requested from this very peer": the peer announces
+// 1..3 new blocks on the tip (headers), says there are no more (empty headers), and the loop's periodic
+// part (Tick -> GetBlockData) then sends getdata for them - GetBlockInProgress entries WITHOUT a
+// compact-block collector.  What may follow is queued: blocktxn / block / cmpctblock naming exactly
+// these in-progress hashes (right hash, right hash with junk, cut short).
+func (g *G) downloadScenario() []msg {
+	k := g.n(1, 3, "dlblocks")
+	prev, height, tm := g.e.hashes[baseBlocks], uint32(baseBlocks), uint32(genesisTime+600*baseBlocks)
+	var hp built
+	hp.cs(uint64(k))
+	var blocks []*wire.Block
+	for i := 0; i < k; i++ {
+		height++
+		tm += 600
+		bl := buildBlock(prev, height, tm, []byte{0xd1, byte(g.n(0, 255, "dlnonce"))}, nil)
+		prev = bl.Header.Hash()
+		hp.w(bl.Header.Serialize(), []byte{0})
+		g.hdrs = append(g.hdrs, knownHdr{bl.Header, height})
+		blocks = append(blocks, bl)
+	}
+	out := []msg{{Cmd: "headers", Pl: hex.EncodeToString(hp.b.Bytes()), Kind: "wf"}, {Cmd: "headers", Pl: "00", Kind: "wf"}, {Cmd: "#tick"}}
+	for _, bl := range blocks {
+		h := bl.Header.Hash()
+		raw := bl.Serialize(true)
+		var q built
+		q.w(h[:])
+		nt := g.n(0, 2, "dlbtxn")
+		q.cs(uint64(nt))
+		for i := 0; i < nt; i++ {
+			q.w(g.tx().Serialize(true))
+		}
+		btx := q.b.Bytes()
+		var c built
+		c.w(bl.Header.Serialize(), g.bytesN(8, 8))
+		c.cs(0)
+		c.cs(1)
+		c.cs(0)
+		c.w(bl.Txs[0].Serialize(true))
+		cands := []msg{
+			{Cmd: "blocktxn", Pl: hex.EncodeToString(btx), Kind: "wf"},
+			{Cmd: "blocktxn", Pl: hex.EncodeToString(append(append([]byte{}, h[:]...), g.bytesN(1, 20)...)), Kind: "flip"},
+			{Cmd: "blocktxn", Pl: hex.EncodeToString(btx[:g.n(0, len(btx)-1, "dlcut")]), Kind: "trunc"},
+			{Cmd: "block", Pl: hex.EncodeToString(raw), Kind: "wf"},
+			{Cmd: "block", Pl: hex.EncodeToString(raw[:g.n(80, len(raw)-1, "dlcutb")]), Kind: "trunc"},
+			{Cmd: "block", Pl: hex.EncodeToString(append(append([]byte{}, raw[:80]...), g.bytesN(20, 60)...)), Kind: "flip"},
+			{Cmd: "cmpctblock", Pl: hex.EncodeToString(c.b.Bytes()), Kind: "wf"},
+		}
+		// one to three of them, blocktxn first in line half of the time
+		first := g.k(len(cands))
+		if g.chance(50) {
+			first = g.k(3)
+		}
+		g.follow = append(g.follow, cands[first])
+		for i, n := 0, g.n(0, 2, "dlmore"); i < n; i++ {
+			g.follow = append(g.follow, cands[g.k(len(cands))])
+		}
+	}
+	return out
+}
+
 func (g *G) sequence(maxLen int) []msg {
 	n := g.n(1, maxLen, "seqlen")
 	var out []msg
+	if g.chance(20) {
+		out = g.downloadScenario()
+		if n < len(out)+2 {
+			n = len(out) + 2
+		}
+	}
 	for len(out) < n {
 		if len(g.follow) > 0 && g.chance(60) {
 			i := g.n(0, len(g.follow)-1, "follow")
